@@ -277,3 +277,74 @@ Example C15_message_examples :
   outcome_code (parse_message tables_of "2.5" STRICT false "MSH|^~\&|a|b|c|d|20200101||ADT^A01|1|P|9.9") = 12 /\
   outcome_code (parse_message tables_of "2.5" TOLERANT false "PID|1") = 1.
 Proof. vm_compute. repeat split; reflexivity. Qed.
+
+(* ============================================================================================ *)
+(* validate(return_errors=True) returns a report instead of raising - SEGMENT LEVEL.
+   Model/Validate.v makes every partial operation of validation.py explicit (a malformed reference
+   row, a complex datatype held against a leaf reference - the TypeError/IndexError of finding F11 -,
+   to_er7() of an MSH-1/MSH-2 field without children are Err (Crash _); load_reference of a missing
+   struct is Err (HL7 EChildNotFound)).  None of them is reachable on a Segment that parse_segment
+   built from text: for EVERY text, every shipped version, both validation levels, every delimiter set
+   (of the parser and of the validator) and ANY leaf function.  Proof: Proofs/ValidateTotal.v (an
+   invariant of the parsed tree: an element carries a complex datatype only under the name whose
+   reference - the one the validator will hold against it - is that sequence) and
+   Proofs/ValidateTotalTables.v (the table premises, one vm_compute over all shipped tables). *)
+From HL7 Require Import Model.Validate Proofs.ValidateTotal Proofs.ValidateTotalTables.
+
+Theorem C15_validate_segment_total : forall v t lvl e leaf (text : str) s e', tables_of v = Some t ->
+  parse_segment t lvl e leaf text None = Ok s ->
+  exists errs, validate_errors t e' s = Ok errs.
+Proof. exact shipped_parse_segment_validates. Qed.
+Print Assumptions C15_validate_segment_total.
+
+(* the same through the public wrapper: Segment.validate(return_errors=True) returns the report
+   (is_valid, errors, warnings); no exception of any kind *)
+Theorem C15_validate_segment_returns_report : forall v t lvl e leaf (text : str) s e' has_report,
+  tables_of v = Some t -> parse_segment t lvl e leaf text None = Ok s ->
+  exists r, fst (validate_wrapper true has_report (validate_seg_log t e' s)) = VReturned r.
+Proof.
+  intros v t lvl e leaf text s e' hr Ht H.
+  destruct (shipped_parse_segment_validates v t lvl e leaf text s e' Ht H) as [errs E].
+  unfold validate_errors, lift_errors in E. destruct (validate_seg_log t e' s) as [l|x]; [|discriminate].
+  cbn. eauto.
+Qed.
+Print Assumptions C15_validate_segment_returns_report.
+
+Theorem C15_validate_segment_never_raises : forall v t lvl e leaf (text : str) s e' x, tables_of v = Some t ->
+  parse_segment t lvl e leaf text None = Ok s -> validate_errors t e' s <> Err x.
+Proof.
+  intros v t lvl e leaf text s e' x Ht H.
+  destruct (shipped_parse_segment_validates v t lvl e leaf text s e' Ht H) as [errs ->]. discriminate.
+Qed.
+Print Assumptions C15_validate_segment_never_raises.
+
+(* for ANY tables satisfying the premises (custom tables): the statement does not depend on the
+   shipped data *)
+Theorem C15_validate_segment_total_general : forall t lvl e leaf (text : str) s e',
+  base t (Some (unbs "ST")) = true -> base t (Some (unbs "varies")) = false ->
+  (forall n r, slookup n (t_fields t) = Some r -> gref t r) ->
+  (forall n r, slookup n (t_components t) = Some r -> gref t r) ->
+  (forall n r, length n <= 3 -> slookup n (t_segments t) = Some r -> gseg t n r) ->
+  parse_segment t lvl e leaf text None = Ok s -> exists errs, validate_errors t e' s = Ok errs.
+Proof. intros t lvl e leaf text s e' H1 H2 H3 H4 H5. exact (parse_segment_validates t H1 H2 H3 H4 H5 lvl e leaf text s e'). Qed.
+Print Assumptions C15_validate_segment_total_general.
+
+(* the hypotheses are satisfiable and the reports are the library's (checked against hl7apy):
+   the Z-segment with components and subcomponents (TypeError before the fix of F11), fields beyond
+   the table, both levels, lower-case names, MSH lines, an inline (withdrawn-field) row of v2.8 *)
+Example C15_validate_examples :
+  (let V t v lvl (s : str) :=
+     match parse_segment t lvl default_ec (leaf_enc v lvl default_ec) s None with
+     | Ok sg => match validate_errors t default_ec sg with Ok l => Some (length l) | Err _ => None end
+     | Err _ => Some 99
+     end in
+   V Gen.Tables_v2_5.tables "2.5" TOLERANT "ZXX|b^c&d" = Some 2 /\
+   V Gen.Tables_v2_5.tables "2.5" TOLERANT "PID|1^2" = Some 3 /\
+   V Gen.Tables_v2_5.tables "2.5" STRICT "PID|1^2" = Some 99 /\
+   V Gen.Tables_v2_5.tables "2.5" TOLERANT "pid|1" = Some 2 /\
+   V Gen.Tables_v2_5.tables "2.5" STRICT "QPD|a||q||beyond" = Some 1 /\
+   V Gen.Tables_v2_5.tables "2.5" TOLERANT "MSH|^~\&|a" = Some 5 /\
+   V Gen.Tables_v2_5.tables "2.5" TOLERANT "OBX|1|CE|a^b&c" = Some 2 /\
+   V Gen.Tables_v2_8.tables "2.8" TOLERANT "pid|1||3|a^b&c^d" = Some 6 /\
+   V Gen.Tables_v2_8.tables "2.8" TOLERANT "PID|1||3|a^b&c^d" = Some 5).
+Proof. vm_compute. repeat split; reflexivity. Qed.
